@@ -141,7 +141,14 @@ fn gen_spec(rng: &mut Rng, p: &Profile, w: &World) -> Option<Spec> {
                 Spec::Get(Tmo::None, Tmo::None, Tmo::None)
             }
         }
-        1 => Spec::Ret(*rng.pick(&out)),
+        1 => {
+            let id = *rng.pick(&out);
+            if rng.chance(10) {
+                Spec::RetUnwind(id)
+            } else {
+                Spec::Ret(id)
+            }
+        }
         2 => Spec::Take(*rng.pick(&out)),
         3 => Spec::Resize(rng.below(w.cfg.max + 3)),
         4 => Spec::Close,
